@@ -8,6 +8,7 @@ import PP.Model.Cost
 import PP.Spec.Unescape
 import PP.Proofs.ToksVal
 import PP.Spec.Reader
+import PP.Spec.TdReader
 open PP PP.Sexp
 
 def encodeCT : Tok.CT → Sexp
@@ -109,6 +110,14 @@ def handle (req : Sexp) : Sexp :=
                 match Tok.parseV (2 * ts.length + 10) ts with
                 | some (r, []) => .list [sym "read", encodeRVal r]
                 | _ => .list [sym "read", sym "none"])])
+    | _, _ => sym "bad-request"
+  | .list (.atom "tdread" :: v :: sets) =>
+    match decodeVal v, sets.mapM decodeSettings with
+    | some v, some sets =>
+      .list (sym "ok" :: sets.map fun st =>
+        match C07.readTimedelta (Tok.ctoks (Pr.sdocsM st v)) with
+        | some n => .list [sym (if n < 0 then "neg" else "pos"), ofNat n.natAbs]
+        | none => sym "none")
     | _, _ => sym "bad-request"
   | .list [.atom "strlines", isB, slash, maxLen, q, .list chars] =>
     match nat? isB, nat? slash, nat? maxLen, nat? q, nats? chars with
